@@ -42,6 +42,14 @@ ifeq ($(V),plain)
 SAN :=
 OPT := -O2 -g -fno-omit-frame-pointer
 endif
+# reach measurement only (tools/reach.sh): line coverage of yara's sources under the quick tier, no sanitizer
+ifeq ($(V),gcov)
+SAN :=
+OPT := -O0 -g -fno-omit-frame-pointer --coverage
+EXTRA := -DYR_MAX_STRING_MATCHES=96 -DYR_SLOW_STRING_MATCHES=64 -DVERIF_GCOV=1
+COV := -fsanitize-coverage=trace-pc
+LDLIBS_X := --coverage
+endif
 
 INC := -I$(B)/gen -I$(REPO)/libyara/include -I$(REPO)/libyara -I$(REPO)
 YCFLAGS := $(OPT) $(SAN) $(DEFS) $(EXTRA) $(INC) -w -fvisibility=default -fno-builtin-malloc -fno-builtin-calloc -fno-builtin-realloc -fno-builtin-free -fno-builtin-strdup -fno-builtin-strndup -fno-builtin-printf -fno-builtin-fprintf -fno-builtin-puts -fno-builtin-putchar -fno-builtin-fputs -fno-builtin-fputc
@@ -64,7 +72,7 @@ CLI_O := $(patsubst $(REPO)/%.c,$(B)/obj/%.o,$(CLI_C))
 SIM_SRC := $(wildcard $(VERIF)sim/*.cc)
 SIM_O := $(patsubst $(VERIF)sim/%.cc,$(B)/sim/%.o,$(SIM_SRC))
 CXXFLAGS := -std=c++17 $(OPT) $(SAN) -Wall -Wno-unused-function -I$(VERIF)sim -I$(REPO)/libyara/include -I$(REPO)/libyara $(DEFS) $(EXTRA) -DVERIF_VARIANT=\"$(V)\"
-LDLIBS := -lcrypto -lm -lpthread
+LDLIBS := -lcrypto -lm -lpthread $(LDLIBS_X)
 
 ENGINES := $(patsubst $(VERIF)engines/%.cc,%,$(wildcard $(VERIF)engines/*.cc))
 
